@@ -50,7 +50,14 @@ pub fn guard<T>(f: impl FnOnce() -> Result<T, String>) -> Result<T, Fail> {
     match vmc::catch(f) {
         Ok(Ok(v)) => Ok(v),
         Ok(Err(e)) => Err(Fail::Err(e)),
-        Err((msg, file)) => Err(Fail::Panic { msg, file }),
+        Err((msg, file)) => {
+            // path relative to the noodles workspace wherever it is checked out (vmc strips "/repo/" only)
+            let file = match file.find("noodles-") {
+                Some(i) => file[i..].to_string(),
+                None => file,
+            };
+            Err(Fail::Panic { msg, file })
+        }
     }
 }
 
